@@ -152,6 +152,15 @@ check("C06", "model_checking",
       "Trusted: hook H2's source identity, TLC. Statistical quality of the generator is C05's concern.",
       "TLC trace validation of paired seeded runs, resumption and per-die source identity", "DESIGN.md section 4 C06")
 
+check("C14", "model_checking",
+      "spec/Trace_Detail.tla states what the calculation-process text is: the source with every slot (dice term of any family, sub-rolled count, "
+      "variable, computed value) replaced by value[annotation]; the result is the expression over the shown values; each annotation lists the dice "
+      "that were rolled and they total the value (rules of spec/Dice.tla); requesting the text twice gives the same text and changes neither Ret, "
+      "variables nor generator state.  The harness generates expressions (random spacing, line breaks, multi-byte names, remark statements), runs them "
+      "on seeded VMs with hooks H1/H2 and records source chunks, spans, rolls per slot and the real text cut along the chunks; TLC validates every event.",
+      "Trusted: the cutter of the text along generated chunks, the annotation parser, roll attribution by mark.detail steps, TLC. Expressions are sampled.",
+      "TLC trace validation of recorded real executions against the TLA+ text/dice specification", "DESIGN.md section 4 C14")
+
 NOT_YET = "check under construction in this build phase (planned in DESIGN.md section 4); not yet claimed"
 
 m = {
